@@ -19,9 +19,11 @@ import os
 import re
 import struct
 import sys
+import time
 from concurrent.futures import ThreadPoolExecutor
 
 from lib import common as C, h1
+from translators import events2lean
 
 NF = 9
 VAR_NAMES = ["wv8", "wv4", "wv1"]
@@ -31,6 +33,7 @@ READ_IDS = {1: (100001, 100003, 3), 2: (100002, 100004, 2)}     # bit -> (read i
 ID_CPU, ID_VAR = 100011, 100012
 PAGEKB = os.sysconf("SC_PAGE_SIZE") // 1024
 U64 = 1 << 64
+ARG_MAX = 988       # `max_size` of save_to_argbuf(); replaced by the translated value at run time
 ARG_SIZES = [8, 16, 100, 500, 872, 876, 880, 904, 908, 912, 944, 948, 952, 956, 960, 976, 980, 984, 988, 992,
              1000, 1016, 1020, 1024, 1100]
 FLAGS = ("fixarg", "fixvar", "fixidx")
@@ -111,13 +114,13 @@ def to_env(cfg, fill=0):
 
 
 def arg_size(t):
-    """what save_to_argbuf computes for `arg1/t<N>%stack+1` (values > 1020: it fails).  A struct passed in a
+    """what save_to_argbuf computes for `arg1/t<N>%stack+1` (values > ARG_MAX: it fails).  A struct passed in a
     register (`%rdi`) is not used: reg_idx and stack_ofs share a union in struct uftrace_arg_spec, so
     mcount_get_struct_arg() also copies `size` bytes from the stack after the register part and runs
     8 bytes over the reserved size (seen while building this harness; argument capture is C09's subject)."""
     if t["arg"] is None:
         return None
-    return align(t["arg"], 4) if t["arg"] <= 1020 else t["arg"]
+    return align(t["arg"], 4) if t["arg"] <= ARG_MAX else t["arg"]
 
 
 def to_model(cfg, flags):
@@ -327,7 +330,7 @@ def read_plan(cfg, call):
     if not t or not t["read"]:
         return [], []
     a = arg_size(t)
-    floor = 4 + a if (a is not None and a <= 1020 and call["kind"] == "pg") else 0
+    floor = 4 + a if (a is not None and a <= ARG_MAX and call["kind"] == "pg") else 0
     idx = 1024
     reads, diffs = [], []
     have = {}
@@ -403,7 +406,7 @@ def spec_stream(cfg, script):
         if h["typ"] == "E":
             a = arg_size(t)
             tok = "E:%d:%d:%d" % (c["depth"], c["fn"], c["t0"])
-            if a is not None and a <= 1020 and c["kind"] == "pg":
+            if a is not None and a <= ARG_MAX and c["kind"] == "pg":
                 tok += ":m%d" % a
             out += ([tok] + reads + w) if first else (w + [tok] + reads)
         else:
@@ -638,6 +641,18 @@ def asan_report(stderr):
 COMBOS = list(itertools.product((1, 0), repeat=3))    # (fixarg, fixvar, fixidx); all-repaired first
 
 
+def run_model_retry(mlines):
+    """other builders relink lean/.lake/build/bin/uvmodel now and then: retry while it is away"""
+    last = None
+    for _ in range(20):
+        try:
+            return C.run_model("C17", mlines)
+        except (FileNotFoundError, PermissionError, OSError) as e:
+            last = e
+            time.sleep(3)
+    raise last
+
+
 def run_cases(ctx, exe, cases, base_idx=0):
     def one(ic):
         i, c = ic
@@ -662,7 +677,7 @@ def run_cases(ctx, exe, cases, base_idx=0):
             pre = ["RESET"] + to_model(c["cfg"], combo)
             spans.append((len(mlines) + len(pre), len(ops)))
             mlines += pre + ops
-    mout = C.run_model("C17", mlines)
+    mout = run_model_retry(mlines)
     k = 0
     for c in cases:
         c["model"] = {}
@@ -748,6 +763,22 @@ def asan_cases(rng):
     return out
 
 
+def fill_cases(rng):
+    """histories whose result must not depend on what fresh heap memory holds"""
+    out = []
+    out.append({"cfg": norm_cfg({"watch": [2, 0]}), "note": "first reported values equal the fill pattern",
+                "script": ["V 2 0", "V 0 0", "T 1000", "E pg 1", "T 1010", "V 2 55", "V 0 5555555555555555", "E pg 2",
+                           "T 1020", "X", "T 1030", "V 2 1", "X", "END"]})
+    out.append({"cfg": norm_cfg({"trig": {1: {"read": 3, "arg": 8}, 2: {"read": 2, "ret": True}}}),
+                "note": "read + argument / return value",
+                "script": ["T 1000", "E pg 0", "T 1004", "X", "RU 5 100", "SM 1 2 3", "T 1010", "E pg 1", "T 1020",
+                           "E pg 2", "T 1030", "RU 6 101", "X", "T 1040", "RU 8 150", "X", "END"]})
+    for _ in range(10):
+        cfg = rand_cfg(rng)
+        out.append({"cfg": cfg, "note": "random", "script": gen_script(rng, cfg, max_calls=8, max_depth=3)})
+    return out
+
+
 def shape_of(finding_id, report):
     """which finding an ASan report belongs to"""
     fr = " ".join(report["frames"])
@@ -758,7 +789,30 @@ def shape_of(finding_id, report):
     return None
 
 
+def translate(ctx):
+    """Gen/EventTab.lean from the snapshot; the check's own constants follow it"""
+    global ARG_MAX
+    ctx.snapshot()
+    changed, vals = events2lean.main(ctx.src, ctx.scratch)
+    ARG_MAX = vals["ARG_MAX"]
+    exp = {"ARGBUF_SIZE": 1024, "EVTBUF_HDR": 16, "sizeof_idx": 2}
+    odd = {k: vals[k] for k in exp if vals[k] != exp[k]}
+    ctx.notes.append("Gen/EventTab.lean regenerated from the snapshot (changed=%s): ARG_MAX=%d MAX_EVENT=%d table=%s" % (
+        changed, vals["ARG_MAX"], vals["MAX_EVENT"], vals["table"]))
+    return vals, odd
+
+
 def run(ctx):
+    try:
+        tvals, odd = translate(ctx)
+    except Exception as e:      # the translator cannot read the sources any more
+        C.violation(ctx, "translator", {"kind": "translator-failed", "error": str(e)[-1500:],
+                                        "theorem": "c17_* (constants and read_events[] of the model)"}, True)
+        return C.finish(ctx)
+    if odd:
+        # the harness decoder and the generators are written for this geometry; the model follows the
+        # translated values, so the correspondence run below will show the consequences
+        ctx.notes.append("frame slice geometry changed: %s" % odd)
     ok, problems = C.prove(ctx, "C17")
     proof_broken = not ok
     if proof_broken:
@@ -946,6 +1000,44 @@ def run(ctx):
                     "what": "AddressSanitizer: %s in %s" % (rep["kind"], "; ".join(rep["frames"][:4])),
                     "env": to_env(c["cfg"]), "script": c["script"]})
 
+    # ---- the result must not depend on the contents of fresh heap memory (uninitialised reads)
+    fcs = fill_cases(rng)
+
+    def frun(args):
+        i, c, fill = args
+        return h1.run(ctx, exe, to_env(c["cfg"], fill), c["script"], 200000 + 2 * i + (1 if fill else 0))
+    with ThreadPoolExecutor(16) as ex:
+        frs = list(ex.map(frun, [(i, c, fill) for i, c in enumerate(fcs) for fill in (0, 0x55)]))
+    fill_diffs = 0
+    for i, c in enumerate(fcs):
+        a, _, _ = impl_lines(frs[2 * i], c["cfg"])
+        b, _, _ = impl_lines(frs[2 * i + 1], c["cfg"])
+        if a == b:
+            continue
+        fill_diffs += 1
+        sa, sb = stream_of(a, c["script"]), stream_of(b, c["script"])
+        toks = set(sum(sa.values(), [])) ^ set(sum(sb.values(), []))
+        ids = {int(t.split(":")[1]) for t in toks if t.startswith("V:")}
+        fid = "S6" if ids and ids <= {ID_VAR} else ("F17c" if ids and max(ids) <= 100010 else None)
+        what = ("the recorded stream depends on the contents of uninitialised heap memory (fill byte 0x00 vs 0x55): "
+                "records only in one of the two runs: %s" % sorted(toks)[:6])
+        c["impl"] = a
+        if fid:
+            if fid in findings:
+                known_hits += 1
+                C.known(ctx, findings[fid], "%s %s" % (fid, WHAT[fid]))
+            elif ("fill-" + fid) not in reported and ("asan-" + fid) not in reported:
+                reported.add("fill-" + fid)
+                C.violation(ctx, "fill-" + fid, {
+                    "kind": "property-violated-on-implementation", "finding": fid, "defect": WHAT[fid], "what": what,
+                    "note": c.get("note"), "env": to_env(c["cfg"]), "script": c["script"],
+                    "stream_fill_00": sa, "stream_fill_55": sb})
+        else:
+            monitor_fail += 1
+            C.violation(ctx, "fill%d" % fill_diffs, {
+                "kind": "property-violated-on-implementation", "what": what, "note": c.get("note"),
+                "env": to_env(c["cfg"]), "script": c["script"], "stream_fill_00": sa, "stream_fill_55": sb})
+
     if proof_broken:
         C.violation(ctx, "proof", {"kind": "proof-obligation-broken", "problems": problems,
                                    "searched": "%d H1 cases; monitor failures %d" % (total, monitor_fail)},
@@ -975,7 +1067,7 @@ def run(ctx):
     samples = [{"env": to_env(c["cfg"]), "script": c["script"][:40], "impl_stream": stream_of(c["impl"], c["script"])}
                for c in cases[len(directed_cases()) + 5::97][:3]]
     ctx.coverage.update({
-        "evaluations": total + asan_runs, "distinct_nontrivial": len(distinct),
+        "evaluations": total + asan_runs + 2 * len(fcs), "distinct_nontrivial": len(distinct),
         "rule": "corpus + directed histories, then random configurations (read=proc/statm|page-fault, time=, trace, "
                 "-A struct-by-value stack argument of 8..1100 bytes, -R, -t, -W cpu / var:wv8|wv4|wv1 in any order) x random call "
                 "histories over 9 symbols with scripted clock (gaps 0..30 ns), page-fault/statm/cpu/variable values "
@@ -988,6 +1080,7 @@ def run(ctx):
         "monitor_failures_by_kind_incl_findings": mon_by,
         "spec_monitor_cases": spec_checked, "spec_monitor_failures": spec_fail,
         "asan_runs": asan_runs, "asan_reports": asan_reports, "known_finding_hits": known_hits,
+        "heap_fill_pairs": len(fcs), "heap_fill_differences": fill_diffs,
         "samples": samples, "exhaustive": False,
     })
     ctx.assumptions += [
@@ -1003,6 +1096,7 @@ def run(ctx):
 
 
 def replay(ctx, path):
+    translate(ctx)
     j = json.load(open(path))
     print(json.dumps(j, indent=1)[:5000])
     if "script" not in j or "cfg" not in j:
